@@ -306,10 +306,10 @@ def check(tier, seed):
             cov["obligations"] = cov.get("obligations", 0) + len(pthms)
             cov["discharged"] = cov.get("discharged", 0) + len(pthms) - len(bad) - len(missing)
         else:
-            repaired = set(s["name"] for s in fail) < set(KNOWN_MISSING) or not fail
+            repaired = set(s["name"] for s in fail) < set(KNOWN_MISSING) or not fail or (ot is not None and not ot["wild"])
             cov["pinned_counterexamples"] = dict(theorems=pthms, status="no longer hold" + (" (parser.y repaired: failing rows now %s)" % [s["name"] for s in fail] if repaired else ""))
             if repaired and ok:
-                print("note: %s no longer builds because parser.y gained destructors (failing rows now %s); not a violation" % (PINNED_MODULE, [s["name"] for s in fail]))
+                print("note: %s no longer builds because the tree was repaired (destructor rows failing now: %s; constructors storing through an unset member: %s); not a violation" % (PINNED_MODULE, [s["name"] for s in fail], ot["wild"] if ot else "?"))
             elif ok:
                 rep.violation("pinned_broken", "%s does not build although the failing rows are %s:\n%s" % (PINNED_MODULE, [s["name"] for s in fail], out[-1500:]), False)
         # ------------------------------------------------------------ failing rows replayed on I
